@@ -961,8 +961,9 @@ enum_diff(void) {
 
 int
 main(int argc, char **argv) {
-  char res[900];
+  char res[1200];
   size_t i;
+  double t_a, t_b, t_c, t_d, t_e;
   drv_init(argc, argv);
   for (i = 0; i < sizeof(cmp_arbitrary); i++)
     cmp_arbitrary[i] = (uint8_t)(i * 37 + 0xff); /* starts with 0xff, contains 0x00 */
@@ -987,14 +988,19 @@ main(int argc, char **argv) {
   do_case("fold", 0);
   enum_lvl();
   enum_v64();
+  t_a = drv_elapsed();
   if (!stop_now())
     enum_edits();
+  t_b = drv_elapsed();
   if (!stop_now())
     enum_prefix();
+  t_c = drv_elapsed();
   if (!stop_now())
     enum_v32();
+  t_d = drv_elapsed();
   if (!stop_now())
     enum_diff();
+  t_e = drv_elapsed();
 
   drv_note("c17_edit %s: edit grid = G1{32 masks x %d values x %d comparator shapes x F,D in {0,1}} + "
            "G2{7 levels x %d key shapes (8..16384 bytes) x F,D in {0,1,3,2000} x C in {0,1,7} x %d values x %s; "
@@ -1008,9 +1014,10 @@ main(int argc, char **argv) {
            "\"evaluations\":%" PRIu64 ",\"exhaustive\":%s,\"edit_cases\":%" PRIu64 ",\"edit_items\":%" PRIu64
            ",\"level_cases\":%" PRIu64 ",\"prefix_cases\":%" PRIu64 ",\"prefix_cuts\":%" PRIu64
            ",\"varint32_values\":%" PRIu64 ",\"varint64_values\":%" PRIu64 ",\"diff_strings\":%" PRIu64
-           ",\"diff_accepted\":%" PRIu64 ",\"fold_selftests\":%" PRIu64,
+           ",\"diff_accepted\":%" PRIu64 ",\"fold_selftests\":%" PRIu64
+           ",\"max_t_edit_s\":%.2f,\"max_t_prefix_s\":%.2f,\"max_t_varint32_s\":%.2f,\"max_t_diff_s\":%.2f",
            n_eval + n_v32 + n_prefix_cuts, exhaustive ? "true" : "false", n_edit, n_edit_items, n_lvl, n_prefix, n_prefix_cuts, n_v32, n_v64,
-           n_diff, n_diff_accept, n_fold);
+           n_diff, n_diff_accept, n_fold, t_b - t_a, t_c - t_b, t_d - t_c, t_e - t_d);
   drv_result(res);
   return 0;
 }
